@@ -351,7 +351,7 @@ inductive EntriesOf (S Rp : List Str) : List R → Fields → Prop
       vs ≠ [] → Rp.contains k = true → k ≠ s%"config" → k ≠ s%"points" → RepRun k run vs →
       EntriesOf S Rp items d → EntriesOf S Rp (run ++ items) ((k, .list vs) :: d)
   | line (kvs : List (Str × AV)) (k : Str) (v p : J) (items : List R) (d : Fields) :
-      attrParts kvs = .ok (k, v, p) → (k ≠ s%"config" ∧ k ≠ s%"points" ∧ Rp.contains k = false) →
+      attrParts kvs = .ok (k, v, p) → (k ≠ s%"config" ∧ Rp.contains k = false) →      -- (a first POINTS block is a plain entry too)
       EntriesOf S Rp items d → EntriesOf S Rp (.adict kvs :: items) ((k, v) :: d)
   | single (k : Str) (sub : Fields) (items : List R) (d : Fields) :
       lookup s%"__type__" sub = some (.str k) → S.contains k = true → underscored k = false →
@@ -451,10 +451,13 @@ theorem fold_entries (cfg : Cfg) (S Rp : List Str) (hc : cfg.com = false) :
         rw [hf1]; exact hf
       · rw [hd, hd1']; simp
   | _, _, .line kvs k v p items d hparts hk hrest, st, hpd, hfresh, hnd => by
+    have hnew : k ∉ keys st.d := hfresh (k, v) (by simp)
     have hds : dataStep Rp k v st.d = .ok (setKey k v st.d) := by
       unfold dataStep
-      rw [if_neg hk.1, if_neg hk.2.1, hk.2.2]; rfl
-    have hnew : k ∉ keys st.d := hfresh (k, v) (by simp)
+      rw [if_neg hk.1]
+      by_cases hpt : k = s%"points"
+      · rw [if_pos hpt, (lookup_none_iff _ _).mpr hnew]
+      · rw [if_neg hpt, hk.2]; rfl
     have hstep : compositeItem cfg S Rp st (.adict kvs) =
         .ok { d := st.d ++ [(k, v)], pd := none, cd := comStep cfg Rp k (attrComments kvs) st.cd } := by
       simp only [compositeItem, hparts, attrItem, hds, hpd, setKey_of_not_mem k v st.d hnew]
